@@ -12,7 +12,8 @@ import tlcrun
 PLANS = {
     "C02": {"quick": [("core", 3, ["Preserve", "Scoped"])],
             "thorough": [("core", 3, ["Preserve", "Scoped"]), ("beta", 3, ["Preserve", "Scoped"]),
-                         ("fuse", 3, ["Preserve", "Scoped"]), ("fuse1", 3, ["Preserve", "Scoped"])]},
+                         ("fuse", 3, ["Preserve", "Scoped"]), ("fuse1", 3, ["Preserve", "Scoped"]),
+                         ("fused", 3, ["Preserve", "Scoped"])]},
     "C14": {"quick": [("chain1", 4, ["NormalFormShape", "Preserve"])],
             "thorough": [("chain1", 4, ["NormalFormShape", "Preserve"])]},
     "C18": {"quick": [("idx", 3, ["WellFormedAlways", "Bounded", "Preserve"])],
